@@ -81,8 +81,12 @@ class V:
             self.ofs = v
             return
         if name == 'p':
-            if isinstance(v, tuple) and v and v[0] == 'chars':
-                self.val, self.own = v[1][:self.length] if self.kind in ('str', 'raw') else v[1], None
+            t_ = chars_text(v)
+            if t_ is not None:
+                # the node denotes `length` bytes from this address: kept as they are, a length that does not match the
+                # string handed in shows when the node is read back
+                self.val, self.own = t_, None
+                self.addr = getattr(v, 'addr', None)
                 return
         raise Unsupported('store to node field %s' % name)
 
@@ -305,7 +309,9 @@ class Machine:
         if isinstance(spec, int):
             return V('uint', spec)
         if isinstance(spec, str):
-            return V('str', spec, self.ledger.alloc('copied string %r' % spec))
+            v_ = V('str', spec, self.ledger.alloc('copied string %r' % spec))
+            v_.length = len(spec)
+            return v_
         raise ValueError(spec)
 
     def sub(self, v):
